@@ -41,6 +41,7 @@ let parse_wop t = match t with
   | ["WA";i;j;w;f] -> WAdd (ni i, ni j, zi w, fb f) | ["R";i;j] -> WRemove (ni i, ni j) | ["WS";i;j;w] -> WSet (ni i, ni j, zi w)
   | ["SL"] -> WSelfLoops | ["V";v] -> WRemoveVertex (ni v) | ["CL"] -> WClear | ["RZ";n] -> WResize (ni n) | ["DD"] -> WRemoveDuplicates
   | _ -> failwith ("bad op: " ^ String.concat " " t)
+let qwrap parse t = match t with ["Q"; v] -> Inr (ni v) | _ -> Inl (parse t)
 let variant = ref repaired
 let um_set0 = ref true
 let uw_canon = ref true
@@ -56,15 +57,15 @@ let run_case line =
     let ops = List.filter (fun t -> t <> []) (List.map toks (String.split_on_char ';' body)) in
     (match hd with
      | ["D"; lk; n] ->
-       let hs = lk <> "none" in let ops = List.map parse_dop ops in
+       let hs = lk <> "none" in let ops = List.map (qwrap parse_dop) ops in
        emit_ms (d_trace hs !variant (ni n) ops) (d_spec_trace hs (ni n) ops)
      | ["U"; lk; n] ->
-       let hs = lk <> "none" in let ops = List.map parse_uop ops in
+       let hs = lk <> "none" in let ops = List.map (qwrap parse_uop) ops in
        emit_ms (u_trace_z hs !variant (ni n) ops) (u_spec_trace hs (ni n) ops)
-     | ["DM"; _; n] -> let ops = List.map parse_mop ops in emit_ms (dm_trace_z !variant (ni n) ops) (m_spec_trace false (ni n) ops)
-     | ["UM"; _; n] -> let ops = List.map parse_mop ops in emit_ms (um_trace_z !variant !um_set0 (ni n) ops) (m_spec_trace true (ni n) ops)
-     | ["DW"; _; n] -> let ops = List.map parse_wop ops in emit_ms (dw_trace_z !variant (ni n) ops) (w_spec_trace false (ni n) ops)
-     | ["UW"; _; n] -> let ops = List.map parse_wop ops in emit_ms (uw_trace_z !variant !uw_canon (ni n) ops) (w_spec_trace true (ni n) ops)
+     | ["DM"; _; n] -> let ops = List.map (qwrap parse_mop) ops in emit_ms (dm_trace_z !variant (ni n) ops) (m_spec_trace false (ni n) ops)
+     | ["UM"; _; n] -> let ops = List.map (qwrap parse_mop) ops in emit_ms (um_trace_z !variant !um_set0 (ni n) ops) (m_spec_trace true (ni n) ops)
+     | ["DW"; _; n] -> let ops = List.map (qwrap parse_wop) ops in emit_ms (dw_trace_z !variant (ni n) ops) (w_spec_trace false (ni n) ops)
+     | ["UW"; _; n] -> let ops = List.map (qwrap parse_wop) ops in emit_ms (uw_trace_z !variant !uw_canon (ni n) ops) (w_spec_trace true (ni n) ops)
      | _ -> failwith ("unknown class in: " ^ line))
 let () =
   Array.iter (fun a -> if a = "pinned" then (variant := pinned; um_set0 := false; uw_canon := false)) Sys.argv;
